@@ -16,15 +16,18 @@ Contents == << EmptyMap,
                Map(<< <<Nat2I(4), K11>>, <<Nat2I(1), Neg2I(7)>> >>),        \* unsorted keys
                Map(<< <<Z2I(99), Tx(<<120>>)>> >>),                           \* unknown parameter
                Map(<< <<Nat2I(7), SigAlg>> >>),                              \* nested counter-signature
-               Map(<< <<Neg2I(65537), U64max>>, <<Ta, F15>> >>) >>
+               Map(<< <<Neg2I(65537), U64max>>, <<Ta, F15>> >>),
+               Map(<< <<Z2I(99), Flt(<<127,248,0,0,0,0,0,0>>)>> >>) >>        \* an extra holding NaN (equality on the parsed view is not reflexive)
 NC == Len(Contents)
-Strats == <<"min", "w1", "w2", "w4", "w8", "indef", "indef2", "zero", "bigkey">>
+Strats == <<"min", "w1", "w2", "w4", "w8", "indef", "indef2", "zero", "bigkey", "nan32", "nan64">>
 (* byte string placed in the protected slot *)
 SlotBytes(c, s) ==
   CASE s = "zero" -> <<>>                                                       \* zero-length form (only for the empty map)
     [] s = "bigkey" -> <<161>> \o EncBignum(Contents[c].m[1][1], 1) \o Enc(Contents[c].m[1][2])   \* first key in bignum form
+    [] s = "nan32" -> <<161, 24, 99, 250, 127, 192, 0, 0>>                         \* {99: NaN} with the float written as f32
+    [] s = "nan64" -> <<161, 24, 99, 251, 127, 248, 0, 0, 0, 0, 0, 0>>              \* ... as f64
     [] OTHER -> EncS(Contents[c], s)
-Valid(c, s) == (s = "zero" => c = 1) /\ (s = "bigkey" => (c \in {2, 3, 6} /\ ~Contents[c].m[1][1].neg))
+Valid(c, s) == (s = "zero" => c = 1) /\ (s = "bigkey" => (c \in {2, 3, 6} /\ ~Contents[c].m[1][1].neg)) /\ (s \in {"nan32", "nan64"} => c = 9)
 
 Positions == {"sign1-detached", "sign-body-detached", "sign-signer1-detached", "sign1", "mac0", "encrypt0", "signature", "sign-body", "sign-signer0", "sign-signer2", "mac-body", "encrypt-body", "recipient",
               "encrypt-recip1", "mac-recip2", "encrypt-recip3", "cs-unprot", "cs-in-prot", "supppub", "kdf"}
